@@ -291,10 +291,90 @@ func verifyImage(res *caseResult, caseIdx int, img imgfs.Image, shards int, name
 	}
 	// fresh names must not get ids that recovered dictionaries or recovered index entries use
 	fr := rand.New(rand.NewSource(fseed))
-	seenSeries := map[string]bool{} // fresh series already created on this image (the generator repeats metrics/tag sets)
+	seenSeries := map[string]bool{}    // fresh series already created on this image (the generator repeats metrics/tag sets)
+	seriesOwner := map[string]string{} // "shard/metric id/series id" -> metric{tags} that holds it after recovery
 	for _, row := range genRows(fr, 900+k, 4) {
 		s := fr.Intn(shards)
-		freshRow(o, d, s, row, k, img.Label, why, seenSeries)
+		freshRow(o, d, s, row, k, img.Label, why, seenSeries, seriesOwner)
+	}
+	// Injectivity of the series ids after recovery: every row of the live run is requested again through the
+	// get-or-create path (a series whose entry was not durable may get a new id - but never one that another tag
+	// set of the same shard and metric id holds, be it a recovered one, a fresh one or another re-created one).
+	requested := map[string]bool{}
+	// brand-new tag sets on the metrics of the live run (their ids derive from the recovered index of that metric)
+	for _, n := range names {
+		if n.k.kind != "series" || n.shard >= len(d.idx) {
+			continue
+		}
+		mk := fmt.Sprintf("new-on-old/%d/%s/%s", n.shard, n.row.NS, n.row.Metric)
+		if requested[mk] {
+			continue
+		}
+		requested[mk] = true
+		if _, err := d.meta.GetMetricID(n.row.NS, n.row.Metric); err != nil {
+			continue // the metric itself was not recovered
+		}
+		mid, err := d.meta.GenMetricID([]byte(n.row.NS), []byte(n.row.Metric))
+		if err != nil {
+			continue
+		}
+		for j := 0; j < 2; j++ {
+			nr := rowSpec{NS: n.row.NS, Metric: n.row.Metric, Tags: [][2]string{{"host", fmt.Sprintf("post-crash-%d-%d", k, j)}}, Fields: n.row.Fields}
+			data, err := nr.bytes()
+			if err != nil {
+				continue
+			}
+			sr := &metric.StorageRow{}
+			sr.Unmarshal(data)
+			sid, err := d.idx[n.shard].GenSeriesID(mid, sr)
+			if err != nil {
+				continue
+			}
+			o.count("new_series_on_recovered_metrics", 1)
+			seriesOwner[fmt.Sprintf("%d/%d/%d", n.shard, mid, sid)] = nr.Metric + "{" + nr.tagString() + "}"
+		}
+	}
+	for _, n := range names {
+		if n.k.kind != "series" {
+			continue
+		}
+		rk := fmt.Sprintf("%d/%s/%s/%s", n.shard, n.row.NS, n.row.Metric, n.row.tagString())
+		if requested[rk] || n.shard >= len(d.idx) {
+			continue
+		}
+		requested[rk] = true
+		_, lookupErr := d.meta.GetMetricID(n.row.NS, n.row.Metric)
+		mid, err := d.meta.GenMetricID([]byte(n.row.NS), []byte(n.row.Metric))
+		if err != nil {
+			continue
+		}
+		data, err := n.row.bytes()
+		if err != nil {
+			continue
+		}
+		sr := &metric.StorageRow{}
+		sr.Unmarshal(data)
+		sid, err := d.idx[n.shard].GenSeriesID(mid, sr)
+		if err != nil {
+			o.fail("C09/gen-fails", "image %d: GenSeriesID of a row of the live run: %v", k, err)
+			continue
+		}
+		o.count("series_of_the_live_run_requested_again_after_recovery", 1)
+		key := fmt.Sprintf("%d/%d/%d", n.shard, mid, sid)
+		me := n.row.Metric + "{" + n.row.tagString() + "}"
+		if prev, ok := seriesOwner[key]; ok && prev != me {
+			if lookupErr != nil || seenSeries[fmt.Sprintf("fresh-metric-id/%d", mid)] {
+				// the metric id itself was handed out on this image: the collision is a consequence of whoever
+				// owned that metric id in the live run not being recovered
+				o.fail("C09/fresh-id-already-used-by-index-entries/"+why("metric", uint32(mid))+"/series-after-recovery",
+					"image %d (after %q): series id %d of shard %d metric id %d is held by %s and by %s after recovery", k, img.Label, sid, n.shard, mid, prev, me)
+			} else {
+				o.fail("C09/series/two-names-share-id/after-crash-recovery",
+					"image %d (after %q): series id %d of shard %d metric %q (id %d, recovered) is held by %s and by %s after recovery", k, img.Label, sid, n.shard, n.row.Metric, mid, prev, me)
+			}
+			continue
+		}
+		seriesOwner[key] = me
 	}
 	o.count("images_recovered_and_checked", 1)
 	if inside {
@@ -345,7 +425,7 @@ func lookup(d *dbset, n ledgerName) (uint32, bool, error) {
 
 // freshRow creates the names of a brand-new row on the recovered databases and checks that none of the ids it
 // receives is already used by recovered dictionaries (observation map) or recovered index entries.
-func freshRow(o *observations, d *dbset, s int, row rowSpec, k int, label string, why func(kind string, id uint32, scope ...string) string, seenSeries map[string]bool) {
+func freshRow(o *observations, d *dbset, s int, row rowSpec, k int, label string, why func(kind string, id uint32, scope ...string) string, seenSeries map[string]bool, seriesOwner map[string]string) {
 	row.Metric = "fresh-" + row.Metric
 	for i := range row.Tags {
 		row.Tags[i][1] = "fresh-" + row.Tags[i][1]
@@ -433,6 +513,8 @@ func freshRow(o *observations, d *dbset, s int, row rowSpec, k int, label string
 		o.fail("C09/fresh-id-already-used-by-index-entries/"+cause+"/series", "image %d (after %q): new series %q of metric %d got id %d which the recovered index already lists", k, label, row.tagString(), mid, sid)
 	}
 	o.observe(97, "series", fmt.Sprintf("shard=%d,metric=%d", s, mid), row.tagString(), sid, o.tick(), o.tick())
+	seenSeries[fmt.Sprintf("owner/%d/%d/%d", s, mid, sid)] = true
+	seriesOwner[fmt.Sprintf("%d/%d/%d", s, mid, sid)] = row.Metric + "{" + row.tagString() + "}"
 	for _, f := range row.Fields {
 		fid, err := d.meta.GenFieldID(mid, field.Meta{Name: field.Name(f.Name), Type: f.Type})
 		if err == nil {
